@@ -19,6 +19,7 @@ import (
 
 func init() {
 	datarecording.VerifYield = sched.Yield
+	datarecording.VerifMapOrder = sched.MapOrder
 	datarecording.VerifLock = sched.Lock
 	datarecording.VerifUnlock = sched.Unlock
 	datarecording.VerifCondWait = sched.CondWait
@@ -169,8 +170,9 @@ func execC35(c recCase, env *kit.Env) kit.Outcome {
 			closeErr = rec.Close()
 		}()
 	} else {
-		s := &sched.Sched{MaxSteps: 60000}
+		s := &sched.Sched{MaxSteps: 60000, KeepTrace: os.Getenv("VERIF_C35_TRACE") != ""}
 		s.YieldOnUnlock = sched.UnlockYields(c.SchedSeed)
+		s.MapSeed = c.SchedSeed | 1
 		s.Choose = sched.ListChooser(c.Decisions, sched.MixedChooser(c.SchedSeed, s))
 
 		if c.Decisions != nil {
@@ -214,6 +216,10 @@ func execC35(c recCase, env *kit.Env) kit.Outcome {
 		})
 
 		steps, deadlock = s.Steps, s.Deadlock
+
+		if s.KeepTrace {
+			fmt.Fprintf(os.Stderr, "trace: %v\n", s.Trace)
+		}
 		out.Steps = uint64(steps)
 
 		if s.CapHit {
